@@ -36,7 +36,7 @@ class Rule(_Rule):
         "repetition = [repeat] element",
         'repeat = 1*DIGIT / (*DIGIT "*" *DIGIT)',
         "element = rulename / group / option /\
-                                   char-val / num-val",
+                                   char-val / num-val / prose-val",
         'group = "(" *c-wsp alternation *c-wsp ")"',
         'option = "[" *c-wsp alternation *c-wsp "]"',
         "char-val = DQUOTE *(%x20-21 / %x23-7E) DQUOTE\
